@@ -399,6 +399,14 @@ impl CalSpec {
             }),
         }
     }
+    /// does any custom part list its holidays out of chronological order (or with repeats)?
+    pub fn has_unsorted_holidays(&self) -> bool {
+        match self {
+            CalSpec::Custom { holidays, .. } => holidays.windows(2).any(|w| w[0] >= w[1]),
+            CalSpec::Union { members, settle } => members.iter().any(|m| m.has_unsorted_holidays()) || settle.as_ref().map_or(false, |v| v.iter().any(|m| m.has_unsorted_holidays())),
+            _ => false,
+        }
+    }
     pub fn kind(&self) -> &'static str {
         match self {
             CalSpec::Builtin(_) => "builtin",
@@ -511,6 +519,17 @@ pub fn gen_holidays(r: &mut Rng, z0: i64, z1: i64, max_run: i64) -> Vec<i64> {
     }
     hs.sort();
     hs.dedup();
+    // a holiday SET is handed over as a list: chronological, shuffled, descending, or with repeats
+    match r.below(10) {
+        0..=3 => {}
+        4..=6 => r.shuffle(&mut hs),
+        7 => hs.reverse(),
+        _ => {
+            let extra: Vec<i64> = (0..1 + hs.len() / 10).filter_map(|_| if hs.is_empty() { None } else { Some(hs[r.usize(hs.len())]) }).collect();
+            hs.extend(extra);
+            r.shuffle(&mut hs);
+        }
+    }
     hs
 }
 
